@@ -138,6 +138,11 @@ let rec parse_sexp names toks =
   | _ -> failwith "sexp: ( expected"
 let sexp_of_string names s = fst (parse_sexp names (tokenize s))
 
+(* eol token of a configuration name: [lazy-]<policy>[@7-3-5] *)
+let strip_eol e =
+  let e = if String.length e > 5 && String.sub e 0 5 = "lazy-" then String.sub e 5 (String.length e - 5) else e in
+  match String.index_opt e '@' with Some k -> String.sub e 0 k | None -> e
+
 let () =
   let dumpfile = Sys.argv.(1) and casefile = Sys.argv.(2) in
   let fuel = nat_of_int (if Array.length Sys.argv > 3 then int_of_string Sys.argv.(3) else 3000) in
@@ -233,8 +238,12 @@ let () =
     let (fam0, ctl0, a, m, eol) =
       match String.split_on_char '.' cfgs with
       | [f; c; a; m; e] -> (int_of_string f, int_of_string c, a = "1", m = "1",
-          (match e with "lf" -> EolLf | "cr" -> EolCr | "crlf" -> EolCrlf | "lf_crlf" -> EolLfCrlf | "cr_crlf" -> EolCrCrlf | _ -> failwith "eol"))
+          (match strip_eol e with "lf" -> EolLf | "cr" -> EolCr | "crlf" -> EolCrlf | "lf_crlf" -> EolLfCrlf | "cr_crlf" -> EolCrCrlf | _ -> failwith "eol"))
       | _ -> failwith "cfg" in
+    let etok = List.nth (String.split_on_char '.' cfgs) 4 in
+    let lazy_ = String.length etok > 5 && String.sub etok 0 5 = "lazy-" in
+    let p0 = if String.contains etok '@' then { pbyte = n_of_int 7; pline = n_of_int 3; pcol = n_of_int 5 }
+             else { pbyte = N0; pline = n_of_int 1; pcol = n_of_int 1 } in
     let c = { ceol = eol;
               acts = (fun fam r -> match beh (int_of_nat fam) (int_of_nat r) with
                   | BNone -> AKNone | BApplyVoid | BThrowStd | BThrowForeign -> AKApply false | BApply0Void -> AKApply0 false
@@ -261,6 +270,22 @@ let () =
     let s = unhex inp in
     let bytes = List.init (String.length s) (fun i -> n_of_int (Char.code s.[i])) in
     let buf = Buffer.create 256 in
+    (* lazy tracking (memory_input_base< lazy >::position): every reported position is recomputed by
+       internal::bump from the beginning, i.e. it is bump_scan over the prefix up to that byte offset *)
+    let lazy_pos =
+      if not lazy_ then [||] else begin
+        let n = List.length bytes in
+        let a = Array.make (n + 1) p0 in
+        let cur = ref { rest = bytes; cpos = p0 } in
+        for i = 1 to n do
+          (match bump_scan (eol_ch eol) (S O) !cur with Some c' -> cur := c' | None -> ());
+          a.(i) <- !cur.cpos
+        done; a end in
+    let ipos p =
+      if lazy_ then begin
+        let k = int_of_n p.pbyte - int_of_n p0.pbyte in
+        if k >= 0 && k < Array.length lazy_pos then ipos lazy_pos.(k) else ipos p
+      end else ipos p in
     let ps p = let (b, l, c) = ipos p in Printf.sprintf ",%d,%d,%d" b l c in
     let whoi = function WRule r -> int_of_nat r | WLimitDepth -> -1 | WLimitBytes -> -1 in
     let counter = ref 0 and stack = ref [] in
@@ -293,7 +318,7 @@ let () =
       | ECheckBytes p -> let (b, l, c) = ipos p in Printf.sprintf "P:CB:%d,%d,%d" b l c
       | EAct t -> if int_of_n t = 0 then "S" else Printf.sprintf "F:%d" (int_of_n t)
       | ENested (r, p, inner) -> let (b, l, c) = ipos p in Printf.sprintf "P:%d:%d,%d,%d>%s" (int_of_nat r) b l c (exn_str inner) in
-    (match eval g c fuel d (nat_of_int root) { rest = bytes; cpos = { pbyte = N0; pline = n_of_int 1; pcol = n_of_int 1 } } with
+    (match eval g c fuel d (nat_of_int root) { rest = bytes; cpos = p0 } with
      | Oof -> Printf.printf "RUN %s %d %s %s | OOF | | \n" gid root cfgs inp
      | Err -> Printf.printf "RUN %s %d %s %s | ERR | | \n" gid root cfgs inp
      | Res (o, cur, evs) ->
